@@ -86,6 +86,16 @@ CHECKS["C19"] = dict(
     note="Trusted: TLC, harness printer, ApplyFilter as the meaning of symbolic filters, process isolation for the global registries.",
     technique="TLA+ executable specification enumerated by TLC + exhaustive replay with filter-event comparison; registry state machine replay", ref="DESIGN.md §3 C19")
 
+CHECKS["C02"] = dict(
+    text="In PongoRender.tla every context string leaf is a marker atom; writing a value under autoescape without an opt-out turns each "
+         "marker into its escaped form. TLC enumerates all routes source x transport x transport x sink (18 transports, 7 sinks, 6 sources) "
+         "and every registered filter on every source, checks NoRawMarker on the model (the design claim: every transport preserves taint) "
+         "and the real engine's output must not contain the raw marker. The quantifier 'however it is reached, combined, looped over, "
+         "assigned, passed, filtered' is a route enumeration, which the specification makes explicit.",
+    note="Trusted: TLC, harness printer and value concretiser (Go struct / Stringer / map / list values), raw-marker search (case-insensitive). "
+         "Exact output differences are counted in the evidence but belong to C09/C12/C19.",
+    technique="TLA+ executable specification with taint markers enumerated by TLC + exhaustive replay", ref="DESIGN.md §3 C02")
+
 PENDING = {}
 
 def main():
